@@ -42,7 +42,15 @@ def load_known(pid=None):
 
 
 def sig_matches(entry_sig, sig):
-    return all(sig.get(k) == v for k, v in entry_sig.items())
+    """Every field of the known-finding signature must match; '<field>__contains' = list subset."""
+    for k, v in entry_sig.items():
+        if k.endswith("__contains"):
+            have = sig.get(k[:-10]) or []
+            if not all(x in have for x in v):
+                return False
+        elif sig.get(k) != v:
+            return False
+    return True
 
 
 def jkey(obj):
